@@ -73,6 +73,38 @@ def rule_fold(ctx):
             if len(exits) != 1:
                 ctx.undecided('C11.R1', fi, c, '%d return paths' % len(exits))
                 continue
+            unb = [t for t in subterms(exits[0].value) if t[0] == 's' and str(t[1]).startswith('global:')]
+            if unb:
+                ctx.violation('C11.R1', fi, c, '%s is read but never assigned (NameError for every input)' % unb[0][1].split(':', 1)[1])
+                continue
+            swapped = [t for t in subterms(exits[0].value) if t[0] == 'call' and t[1] == 'numpy.digitize' and len(t[2]) >= 2
+                       and t[2][0] in (S('freq_edges'), S('freq_edges2'))]
+            if swapped:
+                ctx.violation('C11.R1', fi, c, 'np.digitize is called with (edges, frequencies): %s' % show(swapped[0])[:80])
+                continue
+            # shapes: the whole returned expression is evaluated by the small array model for two input shapes
+            # [samples x imfs] / [samples x imfs x imfs2] and 4 / 3 edges - numpy's own shape errors (operands that do
+            # not broadcast, an impossible reshape, coordinate vectors of different lengths) and a wrong output shape are
+            # decided here; values are opaque
+            from ..smallarr import result_shapes, Fault as _SF, Undecided as _SU
+            c_sh = 'mode=%s, squash_time=%r: the construction is shape-consistent and returns [%sAM bins x carrier bins]' % (
+                mode, squash, 'time x ' if squash is False else '')
+            B_ = {S('infr'): (0, 1), S('infr2'): (0, 1, 2), S('inam2'): (0, 1, 2), S('freq_edges'): (('lit', 4),),
+                  S('freq_edges2'): (('lit', 3),)}
+            try:
+                shapes = result_shapes(exits[0].value, 3, B_)
+                wrong = [(d_, sh_) for d_, sh_ in shapes if sh_ != (((d_[0],) if squash is False else ()) + (2, 3))]
+                if wrong:
+                    d_, sh_ = wrong[0]
+                    ctx.violation('C11.R1', fi, c_sh, 'for inputs of shape %s / %s and 4 / 3 edges the result has shape %s, '
+                                  'expected %s' % (d_[:2], d_, sh_, ((d_[0],) if squash is False else ()) + (2, 3)))
+                    continue
+                ctx.passed('C11.R1', fi, c_sh, 'two input shapes')
+            except _SF as f_:
+                ctx.violation('C11.R1', fi, c_sh, 'numpy raises on this construction: %s' % f_)
+                continue
+            except _SU:
+                pass
             pe = _peel(exits[0].value)
             if pe is None:
                 ctx.undecided('C11.R1', fi, c, 'result is not a trimmed array: %s' % show(exits[0].value)[:80])
@@ -132,6 +164,12 @@ def rule_fold(ctx):
                 continue
             data, rows, cols, shape, dense = dec
             coos[(mode, squash)] = src
+            fl = [t for x in (rows, cols) + ((shape,) if shape is not None else ()) for t in subterms(x)
+                  if t[0] == 'bin' and t[1] == '/']
+            if fl:
+                ctx.violation('C11.R1', fi, c, 'an index / a dimension of the sparse accumulation is computed with true division '
+                              '(%s): floats are not valid indices or dimensions' % show(fl[0])[:70])
+                continue
             # R2 squash table
             c2 = 'mode=%s: squash_time=%r reduction' % (mode, squash)
             want_red = {False: ('toarray', None), 'sum': ('sum', C(0)), 'mean': ('mean', C(0))}[squash]
@@ -238,15 +276,21 @@ def rule_fold(ctx):
             ar = [t for t in subterms(rows) if t[0] == 'call' and t[1] == 'numpy.arange']
             arith = [t for t in subterms(rows) if t[0] == 'bin']
             semantic = None
-            if arith:
-                # arithmetic inside the construction (e.g. a repeat count nimfs * nimfs2): decide by evaluating the
-                # construction on two tiny [samples x imfs x imfs2] shapes - it must list every element's sample index
-                from ..smallarr import flat_index_of_axis0, Undecided as _U
-                try:
-                    semantic = flat_index_of_axis0(rows, 3)
-                except _U:
-                    semantic = None
-            if ar and (not arith or semantic):
+            # decide by evaluating the construction on two tiny [samples x imfs x imfs2] shapes: flattened, it must list
+            # every element's sample index
+            from ..smallarr import flat_index_of_axis0, Undecided as _U, Fault as _F
+            try:
+                semantic = flat_index_of_axis0(rows, 3)
+            except _F as f_:
+                ctx.violation('C11.R1', fi, c3, 'the time coordinate cannot be built: %s' % f_)
+                continue
+            except _U:
+                semantic = None
+            if semantic is False:
+                ctx.violation('C11.R1', fi, c3, 'the time coordinate %s does not list, element by element, the sample index of '
+                              'the flattened [samples x imfs x imfs2] array' % show(rows)[:80])
+                continue
+            if semantic or (ar and not arith):
                 ctx.passed('C11.R1', fi, c3)
             elif not ar:
                 ctx.undecided('C11.R1', fi, c3, 'time coordinate %s' % show(rows)[:80])
